@@ -19,7 +19,7 @@ PROPERTY = {
     'bounds': {'stages': '2..3 quick / 2..4 thorough', 'leaf depth': '1..3', 'priority': 'absent|-1|0|1 per writer',
                'site position': 'leaf or any enclosing mapping (one priority site per writer)'},
     'outside': ['an explicit child priority below a differently prioritised container (statement open)',
-                'type changes container<->leaf at a path that carries priority sites (C02 covers tag-free type changes)'],
+                'type changes other than mapping<->scalar at the written path'],
     'per_split_timeout': {'quick': 300, 'thorough': 900},
     'wall_budget': {'quick': 900, 'thorough': 3000},
 }
@@ -113,6 +113,56 @@ def c03_writers(split, pp1, p1, pp2, p2, pp3, p3, pp4, p4):
     return ok
 
 
+def c03_kind_change(split, pp1, p1, pp2, p2, pp3, p3):
+    """two mapping writers and one scalar writer at the same path: the scalar replaces the mapping iff its priority is
+    at least the mapping's (= highest, latest among equals, of the mapping writers); otherwise the merged mapping stays"""
+    reset()
+    pres, prio = [pp1, pp2, pp3], [p1, p2, p3]
+    eff = [prio[i] if pres[i] else 0 for i in range(3)]
+    tags = [site(f's{i}', {'priority': prio[i]} if pres[i] else {}) for i in range(3)]
+    order = split['order']           # position of the scalar writer among the three stages
+    maps = ['a: %s {x: 1}', 'a: %s {y: 2}']
+    docs = []
+    effs = []
+    mi = 0
+    for k in range(3):
+        if k == order:
+            docs.append('a: %s 5' % tags[k])
+            effs.append(('s', eff[k]))
+        else:
+            docs.append(maps[mi] % tags[k])
+            effs.append(('m', eff[k], 'x' if mi == 0 else 'y'))
+            mi += 1
+    note(docs=docs)
+    # fold: value kind + priority at path a
+    cur = None
+    for e in effs:
+        if cur is None:
+            cur = {'kind': e[0], 'prio': e[1], 'keys': {e[2]: e[1]} if e[0] == 'm' else None}
+        elif cur['kind'] == 'm' and e[0] == 'm':
+            cur['keys'][e[2]] = e[1]
+            if e[1] >= cur['prio']:
+                cur['prio'] = e[1]
+        else:
+            if e[1] >= cur['prio']:
+                cur = {'kind': e[0], 'prio': e[1], 'keys': {e[2]: e[1]} if e[0] == 'm' else None}
+    try:
+        b = Builder()
+        b.add_multiple_sources(*docs, raw_yaml=True)
+        cfg = EvalContext().evaluate(b.build())
+    except Exception as e:
+        reraise_internal(e)
+        note(error=repr(e))
+        return False
+    note(result=repr(dict(cfg)), expected=repr(cur))
+    wit('builds')
+    if cur['kind'] == 's':
+        return cfg['a'] == 5
+    wit('mapping_survives')
+    vals = {'x': 1, 'y': 2}
+    return isinstance(cfg['a'], dict) and dict(cfg['a']) == {k: vals[k] for k in cur['keys']}
+
+
 def _splits(tier):
     out = []
     stages = [2, 3] if tier == 'quick' else [2, 3, 4]
@@ -129,6 +179,10 @@ def _splits(tier):
 
 
 HARNESSES = {
+    'c03_kind_change': Harness('c03_kind_change', c03_kind_change,
+                               [('pp1', 'bool'), ('p1', 'int', -1, 1), ('pp2', 'bool'), ('p2', 'int', -1, 1), ('pp3', 'bool'), ('p3', 'int', -1, 1)],
+                               lambda tier: [{'order': o} for o in range(3)],
+                               doc='two mapping writers and a scalar writer at one path in every order, priorities symbolic', witnesses=('builds', 'mapping_survives')),
     'c03_writers': Harness(
         'c03_writers', c03_writers,
         [('pp1', 'bool'), ('p1', 'int', -1, 1), ('pp2', 'bool'), ('p2', 'int', -1, 1),
